@@ -244,6 +244,9 @@ def rule_r3(ctx):
         if norm(lp.iter).replace(" ", "") in ("proxies[::-1]", "reversed(proxies)"):
             fills = [x for x in lp.body if isinstance(x, ast.Assign) and isinstance(x.value, ast.BoolOp) and isinstance(x.value.op, ast.Or)]
             good = [x for x in fills if len(x.value.values) == 2 and dotted(x.value.values[1]) == dotted(x.targets[0]) and isinstance(x.value.values[0], ast.Attribute)]
+            # the same override spelled as a statement: `if elem.x: var = elem.x`
+            good += [x for x in lp.body if isinstance(x, ast.If) and not x.orelse and len(x.body) == 1 and isinstance(x.test, ast.Attribute) and isinstance(x.body[0], ast.Assign)
+                     and len(x.body[0].targets) == 1 and isinstance(x.body[0].targets[0], ast.Name) and norm(x.body[0].value) == norm(x.test)]
             if len(good) >= 3:
                 ok = True
                 ctx.r.ok(rid, "Forwarded: suffix walked right-to-left, each element overriding when it carries the value (leftmost trusted wins)", f.loc(lp))
@@ -650,6 +653,8 @@ RULES = [rule_r1, rule_r2, rule_r3, rule_r4, rule_r5, rule_r6, rule_r7, rule_r8]
 from ..selftest import M, T, V  # noqa: E402
 
 selftest = [
+    M("by-not-validated", "proxy_headers.py", "                        forwarded_by = undquote(value)", "                        forwarded_by = value", "R8"),
+    T("by-validated-unused", "proxy_headers.py", "                        forwarded_by = undquote(value)", "                        undquote(value)"),
     M("empty-addr-unguarded", "proxy_headers.py", "        addr = addr.strip()\n        if not addr:\n            raise MalformedProxyHeader(\n                \"Forwarded\" if forwarded else \"X-Forwarded-For\",\n                \"empty client address\",\n                client_addr,\n            )\n", "        addr = addr.strip()\n", "R1"),
     M("index-outside-try", "proxy_headers.py", "            forwarded_host_multiple = forwarded_host_multiple[-trusted_proxy_count:]\n            forwarded_host = forwarded_host_multiple[0]\n\n            untrusted_headers.remove(\"X_FORWARDED_HOST\")", "            forwarded_host_multiple = forwarded_host_multiple[-trusted_proxy_count:]\n\n            untrusted_headers.remove(\"X_FORWARDED_HOST\")", None),
     M("handler-narrowed", "proxy_headers.py", "            untrusted_headers.remove(\"X_FORWARDED_PROTO\")\n        except Exception as ex:", "            untrusted_headers.remove(\"X_FORWARDED_PROTO\")\n        except KeyError as ex:", "R1"),
